@@ -114,24 +114,28 @@ def r7(repo, res):
     ok = k1 == "return" and v1 == ("CN", 0, ["1", "5", "1"]) and k2 == "raise" and v2 == "AldyException"
     res.ob("C03.R7", p, p, ok, expected="known names -> CNSolution(gene, 0, names) verbatim; an unknown name raises AldyException",
            found=f"known: {k1} {v1}; unknown: {k2} {v2}", clause="unknown configuration names are rejected", key="user-solution")
-    # genes without structural alleles have copy-number calling switched off by the loader
+    # genes without structural alleles have copy-number calling switched off by the loader (the loader folded on generated databases)
+    import checks.c09 as c09
+
     ia = repo.func("gene::Gene._init_alleles")
     res.analysed(ia)
-    dc = [n for n in walk_local(ia) if isinstance(n, ast.Assign) and ast.unparse(n.targets[0]) == "self.do_copy_number"]
-    okd = False
-    found = "assignment not found"
-    if dc:
-        try:
-            rows = []
-            for da, fl, fr, cc in [(None, {}, {}, {}), ("5", {}, {}, {}), (None, {"13": "e1"}, {}, {}), (None, {}, {"36": "e9"}, {}), (None, {}, {}, {"x": ["e1"]})]:
-                v = Evaluator({"deletion_allele": da, "fusions_left": fl, "fusions_right": fr, "custom_cn": cc}).ev(dc[0].value)
-                rows.append(bool(v))
-            okd = rows == [False, True, True, True, True]
-            found = str(rows)
-        except (Unfoldable, Raised) as e:
-            found = f"unfoldable: {e}"
-    res.ob("C03.R7", ia, dc[0] if dc else ia, okd, expected="copy-number calling is on iff the database has a deletion, fusion or partial-deletion allele",
-           found=found, clause="genes without structural alleles: exactly two default copies are assumed", key="structural-alleles-switch")
+    plain = {"G*1": {"mutations": []}, "G*2": {"mutations": [c09.C20]}}
+    dbs = {"no structural allele": (plain, False),
+           "deletion allele": (dict(plain, **{"G*5": {"mutations": [["G", "deletion"]]}}), True),
+           "left fusion": (dict(plain, **{"G*13": {"mutations": [["GP", "e2-"]]}}), True),
+           "right fusion": (dict(plain, **{"G*36": {"mutations": [["GP", "e2+"]]}}), True)}
+    rows = {}
+    try:
+        ld = c09.Loader(repo)
+        for label, (alleles, want) in dbs.items():
+            rows[label] = ld.load(c09.base_yml(alleles), "hg19").do_copy_number
+    except (Unfoldable, Raised) as e:
+        res.err("C03.R7", f"gene loader outside the folding language: {e}")
+        rows = None
+    if rows is not None:
+        okd = all(rows[l] is w for l, (_, w) in dbs.items())
+        res.ob("C03.R7", ia, ia, okd, expected="copy-number calling is on iff the database has a deletion, fusion or partial-deletion allele",
+               found=str(rows), clause="genes without structural alleles: exactly two default copies are assumed", key="structural-alleles-switch")
     # profile aliases in genotype(), folded whole: exome-type profiles switch copy-number calling off before the structure stage
     from checks._genotype import GenotypeModel, Scenario, events
 
